@@ -36,8 +36,20 @@ Oracle: histories (bzr 2a and git trees) with modified, added, re-added,
 Findings are reported with a family computed from the concrete failing input
 (see `_family`).
 
-Mutants this was built against: see the end of this docstring (filled in by the
-mutation self-test).
+Mutants this was built against (scratch worktree with the proposed fix applied,
+seed 0; o = caught by the oracle with a concrete lost content, t = by the
+correspondence): keep_content when the hash EQUALS the basis (o,t);
+`backups and target_kind is None` (o,t); merge_modified test inverted (o,t);
+bzr remove: changed files not added to files_to_backup (o,t); git remove: the
+same (o,t); bzr remove: safety scan skipped (o,t); bzr remove: rmtree of a
+non-empty directory without force (o,t); backup branch of _alter_files deleting
+instead of renaming (o,t); _dump_conflicts without the THIS helper (o,t);
+_has_named_child ignoring the file system, so the backup name collides (t);
+no-basis branch keeping content only for a versioned target (o,t).  Equivalent
+mutants (stay clean, by design of the code): dropping the `versioned[0] is
+False` branch of remove (the `changed_content` branch covers unknown and added
+files).  Harmless rewrites that stay clean: remove() using sorted(); the
+keep_content condition reordered.
 """
 import ast
 import hashlib
@@ -634,7 +646,7 @@ def _corpus():
 
 def run(ctx, n=None):
     flag = _flag(ctx)
-    n = n or ctx.pick(90, 900)
+    n = n or ctx.pick(70, 700)
     # ---- S1 commands
     seeds = _corpus() + _scenarios(ctx, n)
     results = ctx.pmap(run_scenario, seeds)
